@@ -171,5 +171,74 @@ def run(chk):
     for k, v in db.items():
         if k.startswith('iso_'):
             chk.ob('R17.4', k[4:] in db and db[k[4:]].get('non-linear') not in (None, 'None'), MODELDB, 'db', 'general sibling of ' + k, got=db.get(k[4:], {}).get('non-linear'))
+    r17_5(chk)
     chk.explanation = ('composition of kT and fint, agreement of the configuration handed to the four integration kernels, '
-                       'structure of the threaded vector integration, provenance of calc_kG for the isotropic short-cut models')
+                       'structure of the threaded vector integration, provenance of calc_kG for the isotropic short-cut models, '
+                       'symbolic differentiation of the internal-force integrand against the three tangent integrands (R17.5)')
+
+
+# --------------------------------------------------------------------------
+# R17.5 tangent integrands == derivative of the internal-force integrand
+
+
+def _task_jac(args):
+    model, nlrel, crel = args
+    from . import shelljac, shellenergy
+    try:
+        u = pyxast.parse(repo_path(nlrel), REPO)
+        cu = pyxast.parse(repo_path(crel), REPO)
+        consts = shellenergy.unit_consts(u)
+        kin = {0: 'donnell', 1: 'sanders'}.get(int(consts.get('NL_kinematics', -1)))
+        imp = re.findall(r'from\s+([\w\.]+)\s+cimport\s+([^\n]*cfN[^\n]*)', u.src)
+        if kin is None:
+            return args, None, 'NL_kinematics constant not found in ' + nlrel
+        res, cross, problems, structure = shelljac.jacobian_residuals(u, cu, kin)
+        return args, (kin, [i[0].split('.')[-1] for i in imp], res, cross, problems, structure), None
+    except AnalysisError as e:
+        return args, None, str(e)
+
+
+def r17_5(chk):
+    from concurrent.futures import ProcessPoolExecutor
+    db = conecyl_db()
+    built = set(pyxast.built_sources(REPO))
+    tasks = []
+    for model, ent in sorted(db.items()):
+        if ent.get('non-linear static') is not True or model.startswith('iso_'):
+            continue
+        nlrel = nl_module_file(ent.get('non-linear'))
+        crel = nl_module_file(ent.get('commons'))
+        if nlrel is None or crel is None or nlrel not in built:
+            chk.ob('R17.5', False, MODELDB, 'db', 'kernels of the non-linear capable model ' + model, got='non-linear module %s / commons %s not found among the built sources' % (ent.get('non-linear'), ent.get('commons')))
+            continue
+        tasks.append((model, nlrel, crel))
+    n = 0
+    with ProcessPoolExecutor(max_workers=min(16, os.cpu_count() or 4)) as pool:
+        for (model, nlrel, crel), out, err in pool.map(_task_jac, tasks):
+            if err:
+                raise AnalysisError('R17.5 %s: %s' % (model, err))
+            kin, imps, res, cross, problems, structure = out
+            base = os.path.basename(nlrel)
+            chk.ob('R17.5', kin == model.split('_')[1], nlrel, 'module', 'NL_kinematics constant agrees with the model name', expected=model.split('_')[1], got=kin)
+            want = os.path.basename(crel)[:-4]
+            chk.ob('R17.5', imps == [want], nlrel, 'module', 'cfwx/cfwt/cfN come from the commons module the model registers', expected=want, got=imps)
+            chk.ob('R17.5', not problems, nlrel, 'calc_k0L/calc_kLL/calc_kG', 'writer of (row, col) and writer of the values walk the same loop/guard structure',
+                   got=problems[:3], detail='; '.join(problems[:3]),
+                   sample='%s: (row, col) tables of calc_k0L/kLL/kG and values of cfk0L/kLL/kG pair up one to one' % base)
+            for what, ok, detail, line in structure:
+                chk.ob('R17.5', ok, nlrel, 'calc_k0L/cfk0L', what[:110], line=line, got=detail, detail=detail)
+            for what, ok, detail in cross:
+                chk.ob('R17.5', ok, nlrel, 'cffint', what[:140], got=detail, detail=detail, sample='%s: %s' % (base, what) if n % 40 == 0 else None)
+            for r in res:
+                n += 1
+                construct = 'd fint[%d;%d] / d c[%d;%d]' % (r['row'] + r['col'])
+                chk.ob('R17.5', r['ok'] is True, nlrel, 'cffint vs cfk0L+cfk0L^T+cfkLL+cfkG', construct, line=r['line'],
+                       expected='the derivative of the internal-force integrand of amplitude (class;dof) %s with respect to amplitude %s equals the sum of the tangent integrands' % (r['row'], r['col']),
+                       got='equal' if r['ok'] else ('differs' if r['ok'] is False else 'not decidable'), detail=r['detail'][:900],
+                       sample='%s: %s == k0L + k0L^T + kLL + kG (integrand level, %s)' % (base, construct, 'identically zero' if r['zero'] else 'non-trivial') if n % 60 == 1 else None)
+    chk.floor('R17.5 modules', len(tasks), 8)
+    chk.floor('R17.5 amplitude pairs', n, 1000)
+    chk.assumptions = list(getattr(chk, 'assumptions', [])) + [
+        'R17.5 decides the Jacobian identity at integrand level (every integration point), for all amplitude pairs except the always-prescribed amplitude 2; '
+        'the isotropic short-cut modules (no cffint of their own) are tied to the general ones by R17.4 only',
+        'the accuracy of the numerical integration and bit-identical sums across thread counts are not decided']
